@@ -206,3 +206,145 @@ func init() {
 		Outside: []string{"witness-connection experiment over real sockets", "handlers that panic themselves"},
 	})
 }
+
+func init() {
+	register(&Prop{
+		ID: "C11",
+		Jobs: func(rc *RunCtx) []JobSpec {
+			if rc.Tier == "thorough" {
+				return []JobSpec{{Set: "redis", Fn: "HarnessC11Cut", Params: p("requests", "3"), Split: 5}, {Set: "redis", Fn: "HarnessC11Cut", Params: p("requests", "2"), Split: 3}}
+			}
+			return []JobSpec{{Set: "redis", Fn: "HarnessC11Cut", Params: p("requests", "2"), Split: 3}, {Set: "redis", Fn: "HarnessC11Cut", Params: p("requests", "1")}}
+		},
+		RequiredCovers: map[string][]string{"HarnessC11Cut": {"end", "cut-inside-stream"}},
+		Bounds: func(tier string) map[string]interface{} {
+			r := 2
+			if tier == "thorough" {
+				r = 3
+			}
+			return map[string]interface{}{"pipeline_requests": r, "request_grammar": "GET k | SET k v | LPOP k 5 | MSET k v | DEL k k2 | ZADD k 1 m | LRANGE k 0 -1 | PING, payload bytes symbolic", "cut_point": "every byte offset 0..len(stream), as half-close (EOF) and as reset (read error, writes failing)"}
+		},
+		Assumptions: append(append([]string{"goroutine termination is observed as Server.receive returning (the accept loop starts exactly one goroutine per connection running receive)"}, connLoopAssumptions...), commonAssumptions...),
+		Outside:     []string{"pipelines longer than the bound, requests outside the small grammar"},
+	})
+	register(&Prop{
+		ID: "C20",
+		Jobs: func(rc *RunCtx) []JobSpec {
+			var js []JobSpec
+			ma := "1"
+			if rc.Tier == "thorough" {
+				ma = "2"
+			}
+			for _, c := range CommandNames(rc.Ld) {
+				js = append(js, JobSpec{Set: "redis", Fn: "HarnessC20Spans", Params: p("cmd", c, "maxargs", ma), Split: 4})
+			}
+			js = append(js, JobSpec{Set: "redis", Fn: "HarnessC20Spans", Params: p("cmd", "nosuch", "maxargs", "1")})
+			return js
+		},
+		RequiredCovers: map[string][]string{"HarnessC20Spans": {"end", "quit", "protocol-error", "unauthorised", "disconnect-inside"}},
+		Bounds: func(tier string) map[string]interface{} {
+			return map[string]interface{}{"pipeline": "[cmd args] followed by PING | QUIT PING | protocol error | unknown command", "commands": "every registered executor (composed ones re-enter the dispatcher)", "args": "<=1 (thorough 2) arbitrary 0..1-byte arguments", "authorisation": "with and without requirepass", "disconnect": "none or end of stream at every byte offset", "handler_results": "7 shapes incl. error"}
+		},
+		Assumptions: append(append([]string{"the tracer double builds span contexts as a push/pop stack exactly like go-tracing's common.spanContext"}, connLoopAssumptions...), commonAssumptions...),
+		Outside:     []string{"tracer implementations whose span contexts are not a stack"},
+	})
+}
+
+func init() {
+	register(&Prop{
+		ID: "C05",
+		Jobs: func(rc *RunCtx) []JobSpec {
+			var js []JobSpec
+			sm, dg, lm := "2", "2", "2"
+			if rc.Tier == "thorough" {
+				sm, dg, lm = "3", "18", "3"
+			}
+			for _, c := range CommandNames(rc.Ld) {
+				js = append(js, JobSpec{Set: "redis", Fn: "HarnessC05Dispatch", Params: p("cmd", c, "strmax", sm, "digits", dg, "listmax", lm), Split: 4})
+			}
+			js = append(js, JobSpec{Set: "redis", Fn: "HarnessC05Unknown", Params: p("namelen", map[string]string{"quick": "3", "thorough": "4"}[rc.Tier]), Split: 2})
+			return js
+		},
+		RequiredCovers: map[string][]string{"HarnessC05Dispatch": {"end"}, "HarnessC05Unknown": {"end", "unknown", "custom"}},
+		Bounds: func(tier string) map[string]interface{} {
+			if tier == "thorough" {
+				return map[string]interface{}{"commands": "every registered command that the independent grammar maps onto a handler operation (others are reported under covers: not-in-grammar)", "strings": "0..3 bytes, all byte values", "integers": "sign + 1..18 symbolic digits", "floats": "every 1..2-byte literal that parses", "lists": "1..3 elements, duplicates allowed", "options": "all subsets, two orders, every letter case"}
+			}
+			return map[string]interface{}{"commands": "every registered command that the independent grammar maps onto a handler operation (others are reported under covers: not-in-grammar)", "strings": "0..2 bytes, all byte values", "integers": "sign + 1..2 symbolic digits", "floats": "every 1..2-byte literal that parses", "lists": "1..2 elements, duplicates allowed", "options": "all subsets, two orders, every letter case"}
+		},
+		Assumptions: append(append([]string{
+			"EXPIRE: the expected time is now+ttl for a clock reading between two readings of the harness; time.Now is an intrinsic returning non-decreasing wall-clock instants in [2020,2096]",
+			"SCAN MATCH: the handler must receive the pattern compiled the same way KEYS compiles it (glob semantics themselves are C17)",
+		}, connLoopAssumptions...), commonAssumptions...),
+		Outside: []string{"commands answered by the framework itself (PING, ECHO, SELECT, QUIT, CONFIG, AUTH) and derived commands (C12)", "float literals longer than 2 bytes"},
+	})
+	register(&Prop{
+		ID: "C10",
+		Jobs: func(rc *RunCtx) []JobSpec {
+			var js []JobSpec
+			for _, c := range CommandNames(rc.Ld) {
+				js = append(js, JobSpec{Set: "redis", Fn: "HarnessC10Reject", Params: p("cmd", c)})
+			}
+			js = append(js, JobSpec{Set: "redis", Fn: "HarnessC10SetOptions", Params: p()})
+			return js
+		},
+		RequiredCovers: map[string][]string{"HarnessC10Reject": {"end", "missing", "null", "non-numeric", "bad-integer", "dangling-half"}, "HarnessC10SetOptions": {"end", "nx-xx", "two-expiries", "non-positive-expiry", "repeated"}},
+		Bounds: func(tier string) map[string]interface{} {
+			return map[string]interface{}{"commands": "every registered command with an entry in the independent grammar table", "malformations": "each required position omitted; each element replaced by a null bulk; each numeric position replaced by any 1..2-byte non-numeric token, by out-of-range / fractional / empty tokens; each pair list cut to odd length; SET: NX/XX combined or repeated, two expiries, non-positive expiry (sign + 1..2 digits), repeated KEEPTTL/GET, expiry without value"}
+		},
+		Assumptions: append(append([]string{}, connLoopAssumptions...), commonAssumptions...),
+		Outside:     []string{"random corruption beyond the enumerated malformation classes"},
+	})
+}
+
+var netOverrides = map[string]string{"net.Listen": "vnetListen"}
+
+func init() {
+	register(&Prop{
+		ID: "C08",
+		Jobs: func(rc *RunCtx) []JobSpec {
+			if rc.Tier == "thorough" {
+				return []JobSpec{
+					{Set: "redis", Fn: "HarnessC08Gate", Params: p("requests", "3", "passlen", "2"), Split: 4, Overrides: netOverrides},
+					{Set: "redis", Fn: "HarnessC08Gate", Params: p("requests", "2", "passlen", "3"), Split: 3, Overrides: netOverrides},
+					{Set: "redis", Fn: "HarnessC08TwoConns", Params: p("passlen", "2", "preempt", "2"), Split: 8, Overrides: netOverrides},
+				}
+			}
+			return []JobSpec{
+				{Set: "redis", Fn: "HarnessC08Gate", Params: p("requests", "2", "passlen", "2"), Split: 6, Overrides: netOverrides},
+				{Set: "redis", Fn: "HarnessC08TwoConns", Params: p("passlen", "1", "preempt", "1"), Overrides: netOverrides},
+			}
+		},
+		RequiredCovers: map[string][]string{"HarnessC08Gate": {"end", "auth-one-arg", "auth-two-args", "auth-null", "authorised", "refused"}, "HarnessC08TwoConns": {"end"}},
+		Bounds: func(tier string) map[string]interface{} {
+			return map[string]interface{}{"password": "every byte string of length 0..2 (thorough 3)", "candidates": "every byte string of length 0..len(password)+1 (so empty, prefixes, extensions, case variants, embedded NUL/CRLF are all inside), null bulk, missing argument, one- and two-argument forms", "sequence": "2 (thorough 3) requests from {AUTH forms, GET, PING, SELECT, CONFIG SET}", "connections": "second harness: two connections in every interleaving of their reads"}
+		},
+		Assumptions: append(append([]string{"Server.Start runs for real with net.Listen redirected to a stub port table; accept loops are spawned and block in Accept"}, connLoopAssumptions...), commonAssumptions...),
+		Outside:     []string{"longer passwords and sequences", "TLS connections (C09)"},
+	})
+}
+
+func init() {
+	register(&Prop{
+		ID: "C13",
+		Jobs: func(rc *RunCtx) []JobSpec {
+			if rc.Tier == "thorough" {
+				return []JobSpec{
+					{Set: "redis", Fn: "HarnessC13Conns", Params: p("requests", "2", "preempt", "2", "requirepass", "1"), Split: 12, Overrides: netOverrides},
+					{Set: "redis", Fn: "HarnessC13Conns", Params: p("requests", "3", "preempt", "1", "requirepass", "0"), Split: 12, Overrides: netOverrides},
+					{Set: "redis", Fn: "HarnessC13Conns", Params: p("requests", "3", "preempt", "1", "requirepass", "1"), Split: 12, Overrides: netOverrides},
+				}
+			}
+			return []JobSpec{
+				{Set: "redis", Fn: "HarnessC13Conns", Params: p("requests", "2", "preempt", "1", "requirepass", "0"), Split: 10, Overrides: netOverrides},
+				{Set: "redis", Fn: "HarnessC13Conns", Params: p("requests", "2", "preempt", "1", "requirepass", "1"), Split: 10, Overrides: netOverrides},
+			}
+		},
+		RequiredCovers: map[string][]string{"HarnessC13Conns": {"end"}},
+		Bounds: func(tier string) map[string]interface{} {
+			return map[string]interface{}{"connections": 2, "requests_per_connection": "2 (thorough also 3)", "request_alphabet": "SELECT d (symbolic digit) | AUTH right | AUTH wrong | GET | USET v (per-connection user data in the connection's sync.Map) | UGET", "schedules": "all interleavings of the two connection goroutines at transport reads and synchronisation operations with at most 1 (thorough 2) preemptive context switches", "requirepass": "with and without"}
+		},
+		Assumptions: append(append([]string{"goroutines are scheduled by the engine at Read calls of the scripted connections and at every mutex / sync.Map / atomic operation; preemption between two plain memory accesses is outside the bound (data races are C14)"}, connLoopAssumptions...), commonAssumptions...),
+		Outside:     []string{"more than two connections, more context switches"},
+	})
+}
